@@ -53,12 +53,14 @@ deriving Repr
 
 /-- Number of draws an input event consumes (so the preloaded list stays in step with the
 implementation's calls of `rand`). -/
-def drawsUsed (cfg : Cfg) (active : Bool) (c : Chunk) (draws : List Int) : Nat :=
+def drawsUsed (v : Variant) (cfg : Cfg) (active : Bool) (c : Chunk) (draws : List Int) : Nat :=
   if !active then 0 else
   match cfg with
-  | .latency _ j => if j > 0 ∧ wrap64 (j * 2) > 0 then 1 else 0
+  | .latency _ j =>
+    let guardOK := match v with | .legacy => true | .fixed => decide (j ≤ Int.tdiv maxInt64 2)
+    if j > 0 ∧ guardOK = true ∧ wrap64 (j * 2) > 0 then 1 else 0
   | .slicer avg var _ =>
-    match slicerChunk avg var (slicerFuel c.data.length) 0 c.data.length draws with
+    match slicerChunk (v == .fixed) avg var (slicerFuel c.data.length) 0 c.data.length draws with
     | .ok _ rest => draws.length - rest.length
     | _ => 0
   | _ => 0
@@ -93,10 +95,10 @@ def Env.move (e : Env) : Option Env :=
   else if e.pc.wantsInput && e.inputAvail then
     match e.inq, e.src with
     | c :: q, _ =>
-      let n := drawsUsed e.cfg e.active c e.draws
+      let n := drawsUsed e.v e.cfg e.active c e.draws
       some ({ e with inq := q, draws := e.draws.drop n }.fire (.input (some c) e.now e.draws))
     | [], c :: s =>
-      let n := drawsUsed e.cfg e.active c e.draws
+      let n := drawsUsed e.v e.cfg e.active c e.draws
       some ({ e with src := s, accepted := e.accepted + 1, draws := e.draws.drop n }.fire
         (.input (some c) e.now e.draws))
     | [], [] => some (e.fire (.input none e.now e.draws))
